@@ -4,7 +4,7 @@ package dbSync
 // C05 — RDB / command-stream hand-off through runIncrementalSync and the pipe.
 //
 //vf:job C08 quick VF_C08_PipeCopy reads=1..3 waitfull=0..1
-//vf:job C08 quick VF_C08_Reconnect nrdb=0..1
+//vf:job C08 quick VF_C08_Reconnect nrdb=0..1 c08=1
 //vf:job C05 quick VF_C08_Reconnect nrdb=0..3
 //vf:replayE C08 VF_C08_PipeCopy VF_C08_Reconnect
 //vf:replayE C05 VF_C08_Reconnect
@@ -227,7 +227,9 @@ func VF_C08_Reconnect() {
 		o, _ := strconv.ParseInt(parts[len(parts)-1], 10, 64)
 		vfAssert(parts[4] == "run-1", "PSYNC after a reconnect does not name the source's run id")
 		// known finding: the remembered offset is only advanced by acknowledgement ticks
-		vfAssertK(o == start+int64(len(cmd1))+1, "PSYNC after a reconnect does not ask for start offset + bytes received + 1", "C08-reconnect-offset", true)
+		if vfParam("c08", 0) == 1 {
+			vfAssertK(o == start+int64(len(cmd1))+1, "PSYNC after a reconnect does not ask for start offset + bytes received + 1", "C08-reconnect-offset", true)
+		}
 	}
 	vfAssertTwin(len(got) == 0, "twin")
 }
